@@ -226,7 +226,18 @@ def D17():
     print("D17", "DEFECT" if c.sendfile is not True else "OK", "cfg.sendfile after set('sendfile', True) =", c.sendfile)
 
 
-ALL = {"D14": D14, "D15": D15, "D16": D16, "D17": D17, "D1": D1, "D2": D2, "D3": D3, "D4": D4, "D5": D5_D6, "D6": D5_D6, "D7": D7, "D8": D8, "D9": D9, "D10": D10, "D11": D11, "D12": D12, "D13": D13}
+def D18():
+    import tempfile
+    from gunicorn.pidfile import Pidfile
+    path = os.path.join(tempfile.mkdtemp(), "app.pid")
+    open(path, "w").write("%d\n" % os.getpid())
+    p = Pidfile(path)
+    p.create(os.getpid())
+    p.unlink()
+    print("D18", "DEFECT" if os.path.exists(path) else "OK", "pid file left after unlink():", os.path.exists(path))
+
+
+ALL = {"D18": D18, "D14": D14, "D15": D15, "D16": D16, "D17": D17, "D1": D1, "D2": D2, "D3": D3, "D4": D4, "D5": D5_D6, "D6": D5_D6, "D7": D7, "D8": D8, "D9": D9, "D10": D10, "D11": D11, "D12": D12, "D13": D13}
 
 if __name__ == "__main__":
     want = sys.argv[1:] or ["D1", "D2", "D3", "D4", "D5", "D7", "D8", "D9", "D10", "D11", "D12", "D13"]
